@@ -267,6 +267,21 @@ class DecodeExec:
                     continue
                 if not isinstance(target, ast.Name):
                     raise TranslatorGap("assignment target is not a name")
+                # `xs = [<read> for _ in range(n)]` with n a count read from the stream is the same thing as
+                # `xs = []; for _ in range(n): xs.append(<read>)`: one canonical trace for both spellings
+                lc = st.value
+                if isinstance(lc, ast.ListComp) and len(lc.generators) == 1 and not lc.generators[0].ifs:
+                    cnt = self.range_count(lc.generators[0].iter)
+                    if isinstance(cnt, ast.Name) and isinstance(env.get(cnt.id), Read):
+                        n = ("var", cnt.id, env[cnt.id].order)
+                        self.trace.append(("loop_begin", n))
+                        before = len(self.trace)
+                        v = self.eval(lc.elt, env)
+                        if isinstance(v, Read) and len(self.trace) == before:
+                            self.trace.append(("field", target.id, v))
+                        self.trace.append(("loop_end", n))
+                        env[target.id] = [v]
+                        continue
                 before = len(self.trace)
                 v = self.eval(st.value, env)
                 if isinstance(v, Read) and len(self.trace) == before:
@@ -286,6 +301,20 @@ class DecodeExec:
                     n = ("var", cnt.id, env[cnt.id].order)
                 else:
                     n = self.const(cnt)
+                    # `for _ in range(N): xs.append(<one read>)` with a constant N is the same thing as
+                    # `xs = [<one read> for _ in range(N)]`: an array of N numbers
+                    if len(st.body) == 1 and isinstance(st.body[0], ast.Expr) and isinstance(st.body[0].value, ast.Call):
+                        call = st.body[0].value
+                        f = call.func
+                        if (isinstance(f, ast.Attribute) and f.attr == "append" and isinstance(f.value, ast.Name) and len(call.args) == 1
+                                and env.get(f.value.id) == [] and isinstance(n, int)):
+                            mark = len(self.trace)
+                            elt = self.read_expr(call.args[0], env)
+                            if elt is not None and len(self.trace) == mark:
+                                rl = ReadList(elt.fmt, n, elt.order)
+                                self.trace.append(("array", f.value.id, rl))
+                                env[f.value.id] = rl
+                                continue
                 self.trace.append(("loop_begin", n))
                 self.exec_loop_body(st.body, env)
                 self.trace.append(("loop_end", n))
